@@ -101,7 +101,7 @@ CLAIMED.update({
             "C01_proxy_step_udp/tcp, C01_stable_on_c14_domain + C01_stable_necessary (the re-encode-stability hypothesis holds on the grammar domain and is visibly necessary: CSeq '0001 INVITE'), "
             "C01_single_content_length(_read) (exactly one Content-Length = body length, also through the judge's own line reader), C01_judge_bridge_partial/request/response and C01_judge_relay "
             "(the executable judge accepts the model's output), C01_legacy_refuted.",
-            PROXY_NOTE + "Header values are compared modulo surrounding blanks; the generators avoid values that begin/end with a Unicode white-space rune (Go's TrimSpace strips those too; the model trims ASCII only).",
+            PROXY_NOTE + "Header values are compared modulo surrounding blanks, read as Unicode white space: Go's TrimSpace strips the UTF-8 encodings of the Unicode White_Space runes too, the model (Bytes.trim_space_go, validated against strings.TrimSpace) and the judge do the same, and about one generated extension value in 15 begins/ends with such a rune or a look-alike.",
             "Coq proof (frame lemmas for every state-passing message operation, composed along the pipeline) + whole-proxy differential run with independent judge"),
     "C02": ("Theorems for every response, state, configuration: C02_response_general / C02_response_hop (both layouts: comma list and repeated lines, compact/odd-case names: exactly one send to "
             "received-or-host, numeric-rport-or-sent-by-port, over the entry's transport, with the remaining Via entries intact), C02_single_via_dropped, C02_undecodable_dropped, C02_dest_unsupported, "
@@ -125,6 +125,29 @@ CLAIMED.update({
             "(the pre-fix argument order gives the never-set defRoute), C07_wired_reachable (accepted AND dialled connections in every reachable state), C07_step_udp / C07_step_tcp.",
             PROXY_NOTE + "The wiring is exercised for real: YAML -> loadConfigFromReader -> startProxy; requests arrive over UDP, accepted TCP connections and connections the proxy dialled itself.",
             "Coq proof (parameter-list characterisation of SetParam, wiring function, reachable-state invariant) + whole-proxy differential run with independent judge"),
+    "C04": ("Theorems over every history (no bound on length, dialogs, backends): C04_bind / C04_bind_subscribe (a response with both tags whose CSeq method is INVITE coming from a backend address - or a "
+            "SUBSCRIBE response relayed towards a backend - files the dialog under that backend object until now + max(timeout, Expires)), C04_sticky_step(_reverse) (a request of ANY method whose "
+            "direction-independent dialog id is pinned to a live backend goes to exactly that address, the rotation cursor and the membership untouched; From/To swapped gives the same id: "
+            "dialog_of_symmetric through C16), C04_preserved_message / C04_preserved / C04_preserved_history (every event that is not a re-bind, terminating NOTIFY, final response consuming the "
+            "same key, or membership change of that backend keeps the pin: unrelated requests, responses, TCP traffic, other dialogs, other backends' membership), C04_sticky and C04_sticky_pinned "
+            "(history form: bind, any admissible history, then a request of the dialog addressed to the service is delivered to the answering backend and nowhere else), C04_unpinned_step / "
+            "C04_unpinned_balanced (a request of no live pinned dialog takes the rotation's next backend = C05), bref_round_trip (the pin's textual encoding), key_neq_dialog, C04_legacy_refuted.",
+            PROXY_NOTE + "Hypotheses visible in the statements: the lifetime is non-negative (a huge Expires wraps), the backend generation < 2^63, and a dialog identifier is not also a "
+            "transaction key METHOD-branch of the same table (key_neq_dialog gives the syntactic sufficient condition: the proxy's branches start with the magic cookie). 'Addressed to the service' = "
+            "no Route or exactly the own Route entry, no static route for the To host, Request-URI matching the service name. Run: 1-7 (thorough 50) concurrent dialogs over 2-6 backends, both "
+            "directions, every method, backend answers to in-dialog requests, foreign dialogs (established by non-backend peers), unrelated traffic in between.",
+            "Coq proof (pin-table invariant along histories, direction-independent dialog id, frame lemmas for every non-binding event) + whole-proxy differential run with independent history judge"),
+    "C12": ("Theorems over every history: C12_register (a request arriving on TCP connection c files c under (tcp, RESOLVED response host, port, CSeq-method-branch) for 3600 s, every other live entry "
+            "untouched), C12_lookup / C12_until_final (a response whose next Via gives that key is written on c and on nothing else, WHATEVER else the table holds; a provisional response keeps "
+            "the entry, the final one drops it), keys_differ / tid_inj / full_addr_inj_tid / accept_key_differs (distinct (method, branch) pairs give distinct keys for the same peer address and "
+            "sent-by; the accept-level key never collides), C12_preserved / C12_preserved_history (requests and responses of other transactions on other connections from the same address and "
+            "with the same sent-by, accepts, closes of other connections, membership changes, provisional responses of the same transaction keep the registration), C12_same_connection (history "
+            "form: request on c, any admissible history, then the response: delivered on c), C12_history_ex (two connections, same sent-by, reordered 180/200), C12_legacy_refuted (the pre-fix "
+            "keying loses the response for a resolvable name in the sent-by).",
+            PROXY_NOTE + "Backends are UDP in the whole-proxy model (the response event arrives over UDP); registration and look-up within 3600 s; connection c not closed in between (stated). Run: "
+            "2-5 (thorough 8) client connections from one address, equal / different / NAMED sent-by values, with and without received stamping, 1xx before 2xx, responses reordered across "
+            "connections; the accept/receive goroutines and real sockets are exercised only by the run.",
+            "Coq proof (transport-table frame lemmas, key injectivity, invariant along histories) + whole-proxy differential run with independent history judge"),
     "C13": ("Theorems for every Route set in any layout: C13_own_popped_iff (the top entry is consumed iff it designates the receiving listener: same port and same or same-resolving host), "
             "C13_next_hop_popped_iff_not_keep, C13_route / C13_route_decoded (the relayed Route entries are exactly skipn (own?1:0 + (next hop stripped?1:0)) of the received ones, near misses "
             "included as the own = false branch), C13_route_view_grammar + C13_route_header_text (link to bytes through the C14 theorems).",
